@@ -20,6 +20,8 @@ pub struct CtCase {
     pub n_assets: usize,
     pub has_issuance: bool,
     pub has_conf_input: bool,
+    /// a spent output with exactly one of asset / amount confidential
+    pub has_partial_input: bool,
 }
 
 /// A blinding factor that is a valid non-zero scalar and differs between call sites (`salt`) even
@@ -145,16 +147,34 @@ pub fn gen_ct_case(t: &mut Tape, allow_unmarked: bool) -> CtCase {
     let mut secrets = Vec::new();
     let mut has_issuance = false;
     let mut has_conf_input = false;
+    let mut has_partial_input = false;
     for in_idx in 0..n_in {
         let asset = p.assets[t.below(n_assets)];
         let value = gen_amount(t);
-        let conf = t.bool();
-        let (abf, vbf) = if conf { (abf_from(t, in_idx as u32), vbf_from(t, in_idx as u32)) } else { (AssetBlindingFactor::zero(), ValueBlindingFactor::zero()) };
-        let utxo = if conf {
+        // one byte decides the form of the spent output: bit 0 = confidential, and a byte of
+        // 0xc0 and above makes it *partially* blinded (odd: confidential asset with an explicit
+        // amount, i.e. abf != 0 and vbf = 0; even: explicit asset with a confidential amount)
+        let form = t.u8();
+        let conf = form & 1 == 1;
+        let partial = form >= 0xc0;
+        let (abf, vbf) = match (conf, partial) {
+            (true, false) => (abf_from(t, in_idx as u32), vbf_from(t, in_idx as u32)),
+            (true, true) => (abf_from(t, in_idx as u32), ValueBlindingFactor::zero()),
+            (false, true) => (AssetBlindingFactor::zero(), vbf_from(t, in_idx as u32)),
+            (false, false) => (AssetBlindingFactor::zero(), ValueBlindingFactor::zero()),
+        };
+        let utxo = if conf || partial {
             has_conf_input = true;
+            if partial {
+                has_partial_input = true;
+            }
             TxOut {
-                asset: Asset::new_confidential(secp(), asset, abf),
-                value: Value::new_confidential_from_assetid(secp(), value, asset, vbf, abf),
+                asset: if abf == AssetBlindingFactor::zero() { Asset::Explicit(asset) } else { Asset::new_confidential(secp(), asset, abf) },
+                value: if vbf == ValueBlindingFactor::zero() {
+                    Value::Explicit(value)
+                } else {
+                    Value::new_confidential_from_assetid(secp(), value, asset, vbf, abf)
+                },
                 nonce: if t.bool() { Nonce::Confidential(p.pubkeys[t.below(p.pubkeys.len())]) } else { Nonce::Null },
                 script_pubkey: std_script(t),
                 witness: TxOutWitness::empty(),
@@ -261,5 +281,5 @@ pub fn gen_ct_case(t: &mut Tape, allow_unmarked: bool) -> CtCase {
         output.push(TxOut { asset: Asset::Explicit(o.asset), value: Value::Explicit(o.value), nonce, script_pubkey: o.script.clone(), witness: TxOutWitness::empty() });
     }
     let tx = Transaction { version: 2, lock_time: LockTime::ZERO, input, output };
-    CtCase { tx, spent, secrets, receivers, rng_seed: t.arr32(), n_assets: totals.len(), has_issuance, has_conf_input }
+    CtCase { tx, spent, secrets, receivers, rng_seed: t.arr32(), n_assets: totals.len(), has_issuance, has_conf_input, has_partial_input }
 }
